@@ -56,3 +56,12 @@ let () =
      handle reads (FileBuf.sync_durable); refusing to open acknowledges nothing *)
   register "unwritable" (fun _ -> obs "unwritable durable=true");
   register "rosync" (fun _ -> obs "rosync durable=true")
+;;
+let () =
+  (* the handle returned by Create holds the lock like any other (Lock.step_excl) *)
+  register "lockcreate" (fun _ -> obs "lockcreate blocked=true acquired=true");
+  (* a symbolic link is another name of the same file *)
+  register "symlink" (fun tk -> match tk with
+    | [_; target; link] -> set_file link (get_file target); obs "symlink ok"
+    | _ -> failwith "symlink")
+
